@@ -154,6 +154,7 @@ struct World {
 	bool capture_on = false;
 	std::vector<Datagram> captured;
 	std::deque<Datagram> feed;
+	std::vector<std::string> unit_system;   // system() strings of calls made outside any instance
 
 	// API
 	Instance *add_instance(const std::string &name, int (*entry)(int, char **),
